@@ -56,6 +56,7 @@ def main(argv):
                 j = json.load(open(mj))
                 m['property'] = j['property']
                 m['checks'] = j.get('checks') or [j['property']]
+                m['counted'] = j.get('counted', True)
         name = os.path.relpath(p, HERE)
         d = scratch_copy()
         try:
@@ -81,10 +82,11 @@ def main(argv):
                 tag = re.search(r'violation: (\S+)', c.stdout)
                 caught.append((prop, hit, tag.group(1) if tag else ('exit %d' % c.returncode), time.time() - t0))
             ok = any(h for _p, h, _t, _s in caught)
-            if not ok:
+            counted = m.get('counted', True)
+            if not ok and counted:
                 missed += 1
             rows.append((name, ok))
-            print('%-46s %s  %s%s' % (name, 'CAUGHT' if ok else 'MISSED',
+            print('%-46s %s  %s%s' % (name, 'CAUGHT' if ok else ('MISSED' if counted else 'NOT-COUNTED (outside the property as stated, see meta.json)'),
                                       ' '.join('%s:%s(%s,%.0fs)' % (p_, 'y' if h else 'n', t, s) for p_, h, t, s in caught),
                                       '' if suite_ok is None else ('  suite:%s' % ('pass' if suite_ok else 'FAIL'))))
         finally:
